@@ -139,7 +139,7 @@ macro_rules! ep {
         match $run.call($label, || $call) {
             Some(Ok($ok)) => {
                 $run.ok($label);
-                $okb;
+                let _ = $okb;
             }
             Some(Err(e)) => {
                 $run.err($label);
@@ -156,7 +156,7 @@ macro_rules! epp {
         match $run.call($label, || $call) {
             Some(Ok($ok)) => {
                 $run.ok($label);
-                $okb;
+                let _ = $okb;
             }
             Some(Err(e)) => {
                 $run.err($label);
@@ -172,7 +172,7 @@ macro_rules! down {
     ($run:ident, $label:literal, $call:expr, $ok:pat => $okb:expr) => {
         match $run.call($label, || $call) {
             Some(Ok($ok)) => {
-                $okb;
+                let _ = $okb;
             }
             Some(Err(e)) => {
                 render!($run, $label, e);
@@ -185,7 +185,7 @@ macro_rules! downp {
     ($run:ident, $label:literal, $call:expr, $ok:pat => $okb:expr) => {
         match $run.call($label, || $call) {
             Some(Ok($ok)) => {
-                $okb;
+                let _ = $okb;
             }
             Some(Err(e)) => {
                 render_plain!($run, $label, e);
@@ -652,7 +652,7 @@ pub fn pipe_pset(run: &mut Run, fx: &Fix, ps: &PolicySet, deep: bool) {
     }
     {
         let mut loader = TestEntityLoader::new(&fx.entities);
-        down!(run, "PolicySet::is_authorized_batched", ps.is_authorized_batched(&fx.reqs[0], &fx.schema, &mut loader, 4), d => { let _ = d; });
+        downp!(run, "PolicySet::is_authorized_batched", ps.is_authorized_batched(&fx.reqs[0], &fx.schema, &mut loader, 4), d => { let _ = d; });
     }
     down!(run, "compute_entity_manifest", compute_entity_manifest(&fx.validator, ps), m => { run.call("EntityManifest => Debug", || format!("{m:?}").len()); });
     // formatting of the printed form
@@ -967,7 +967,7 @@ pub fn pipe_entities(run: &mut Run, fx: &Fix, es: &Entities, deep: bool) {
     });
     {
         let mut loader = TestEntityLoader::new(es);
-        down!(run, "PolicySet::is_authorized_batched(entities)", fx.pset.is_authorized_batched(&fx.reqs[0], &fx.schema, &mut loader, 4), d => { let _ = d; });
+        downp!(run, "PolicySet::is_authorized_batched(entities)", fx.pset.is_authorized_batched(&fx.reqs[0], &fx.schema, &mut loader, 4), d => { let _ = d; });
     }
 }
 
